@@ -157,6 +157,21 @@ def step (_ : Unit) (toks : List Val) (impl : String) : Unit × Out :=
     let n := min buf.length cb.length
     let sp := toString n ++ " " ++ listStr (buf.take n ++ cb.drop n) ++ " " ++ listStr (buf.drop n)
     ((), { model := m, spec := some sp, tags := ["recvqueuedfull", "recvqueuedfull." ++ stopTag r.stop] })
+  | [.w "recvqueuedfullcap", .i cap, .i fill, .i closed, .i buflen, .i bufcap] =>
+    -- as `recvqueuedfull`, the caller's buffer having spare capacity `bufcap - buflen` behind its length: untouched (-7)
+    if cap < 0 ∨ fill < 0 ∨ fill > cap ∨ buflen < 0 ∨ bufcap < buflen then ((), { model := "bad-op" }) else
+    let buf := fillList fill.toNat
+    let cb : List Int := List.replicate buflen.toNat (-7)
+    let spare : List Int := List.replicate (bufcap - buflen).toNat (-7)
+    let r := recvQueuedFull (Chan.mk' cap.toNat buf (closed != 0)) cb
+    let m := toString r.n ++ " " ++ listStr r.buf ++ " " ++ listStr spare ++ " " ++ listStr r.ch.drain
+    let n := min buf.length cb.length
+    let sp := toString n ++ " " ++ listStr (buf.take n ++ cb.drop n) ++ " " ++ listStr spare ++ " " ++ listStr (buf.drop n)
+    ((), { model := m, spec := some sp, tags := ["recvqueuedfullcap", "recvqueuedfull." ++ stopTag r.stop] })
+  | [.w "recvclose", .i _cap, .i _tmo, .i _rounds, .i _procs] =>
+    -- RecvTimeout on an empty channel closed at about the moment its timer fires: "a closed channel counts as false" and the timeout gives
+    -- false too, nothing was sent, so every round returns (0, false) whichever event wins (both branches of the model's select agree)
+    ((), { model := "0 -", spec := some "0 -", tags := ["recvclose"] })
   | [.w "recvqueuedconc", .i cap, .i fill, .i closed, .i g, .i limit] =>
     -- g concurrent RecvQueued calls on one channel holding 1..fill, no sender.  A channel hands its values out in FIFO order, each to
     -- exactly one receiver, and a receiver stops early only when it finds the channel empty (or closed and drained).  So the outcomes are
